@@ -151,7 +151,7 @@ theorem sim_tick {cfg : Cfg} {d d' : RState} {m : Mon} {o : Obs} (hs : Sim cfg d
       cases hkind : q'.kind with
       | slow a b => rw [hkind] at hkeep; cases hkeep
       | run a b => rw [hkind] at hkeep; cases hkeep
-      | upl a b c d => rw [hkind] at hkeep; cases hkeep
+      | upl a b c => rw [hkind] at hkeep; cases hkeep
       | del i f =>
         rw [hkind] at hkeep hsh hj
         obtain ⟨⟨nn, hn, _⟩, _⟩ := hsh
